@@ -15,6 +15,7 @@ package main
 import (
 	"bytes"
 	"encoding/binary"
+	"encoding/hex"
 	"encoding/json"
 	"fmt"
 	"io"
@@ -478,6 +479,7 @@ type stats struct {
 	Entries       map[string]int `json:"ops_by_entry"`
 	Variants      map[string]int `json:"ops_by_variant"`
 	SitesCovered  int            `json:"sites_covered"`
+	CoveredBits   string         `json:"covered_bits"`
 	SitesTotal    int            `json:"sites_total"`
 	SwitchEdges   int            `json:"switch_edges"`
 	Aborted       map[string]int `json:"aborted_runs"`
@@ -504,7 +506,8 @@ func addMap(dst, src map[string]int) {
 
 type total struct {
 	stats
-	procs int
+	procs   int
+	covered []byte // union of the yield-site bitmaps of all processes
 }
 
 func newTotal() *total {
@@ -536,6 +539,14 @@ func (t *total) add(s *stats) {
 	t.FailuresTotal += s.FailuresTotal
 	if s.SitesCovered > t.SitesCovered {
 		t.SitesCovered = s.SitesCovered
+	}
+	if b, err := hex.DecodeString(s.CoveredBits); err == nil {
+		if len(t.covered) < len(b) {
+			t.covered = append(t.covered, make([]byte, len(b)-len(t.covered))...)
+		}
+		for i, x := range b {
+			t.covered[i] |= x
+		}
 	}
 	if s.SwitchEdges > t.SwitchEdges {
 		t.SwitchEdges = s.SwitchEdges
@@ -1139,6 +1150,42 @@ func doCheck(cfg tierCfg) int {
 			"build_s":         b.buildS,
 		},
 	}
+	// reach: which yield sites no process executed (named, so that a reader sees the blind spots)
+	coveredUnion, uncovered := 0, []string{}
+	var siteList []struct {
+		File string `json:"file"`
+		Line int    `json:"line"`
+		Func string `json:"func"`
+	}
+	if sb, err := os.ReadFile(filepath.Join(b.rootSerial, "verifsimrt", "sites.json")); err == nil {
+		json.Unmarshal(sb, &siteList)
+	}
+	uncoveredByFunc := map[string]int{}
+	var uncoveredLines []string
+	markers := 0
+	for i := range siteList {
+		if i/8 < len(tot.covered) && tot.covered[i/8]&(1<<(i%8)) != 0 {
+			coveredUnion++
+		} else {
+			uncoveredByFunc[siteList[i].File+":"+siteList[i].Func]++
+			if !markerRe.MatchString(siteList[i].Func) {
+				uncoveredLines = append(uncoveredLines, fmt.Sprintf("%s:%d", siteList[i].File, siteList[i].Line))
+			}
+		}
+	}
+	for f, n := range uncoveredByFunc {
+		if markerRe.MatchString(f) {
+			markers += n // empty marker methods (isExpr, isStatement, ...) that nothing calls
+			continue
+		}
+		uncovered = append(uncovered, fmt.Sprintf("%s (%d)", f, n))
+	}
+	sort.Strings(uncovered)
+	cov := ev["coverage"].(map[string]any)
+	cov["yield_sites_covered_union"] = coveredUnion
+	cov["yield_sites_never_executed_by_function"] = uncovered
+	cov["yield_sites_never_executed_lines"] = uncoveredLines
+	cov["yield_sites_in_uncalled_marker_methods"] = markers
 	os.MkdirAll(filepath.Join(verifDir, "evidence"), 0o755)
 	eb, _ := json.MarshalIndent(ev, "", " ")
 	if err := os.WriteFile(filepath.Join(verifDir, "evidence", "C18.json"), append(eb, '\n'), 0o644); err != nil {
@@ -1330,6 +1377,8 @@ type raceReport struct {
 	worker      int
 	gomaxprocs  string
 }
+
+var markerRe = regexp.MustCompile(`\.is[A-Z][A-Za-z]*$`)
 
 var burstRe = regexp.MustCompile(`(?m)^BURST (\d+)$`)
 
